@@ -932,6 +932,27 @@ def rule_r5(chk, prog):
                           'comments reach the scanner as LF, the token text '
                           'differs from the lexeme in the file',
                           loc=cm.loc(o), nontrivial=True)
+                # ... and decoded like every other file of the run (the
+                # writers use the default encoding): no codec of its own,
+                # no error handler that replaces or drops bytes
+                enc = kw(o, 'encoding')
+                err = kw(o, 'errors')
+                okc = (enc is None or (isinstance(enc, ast.Constant) and (
+                    enc.value is None or str(enc.value).lower().replace(
+                        '_', '-') in ('utf-8', 'utf8')))) and (
+                            err is None or (isinstance(err, ast.Constant)
+                                            and err.value in (None,
+                                                              'strict')))
+                chk.check('C08.R5', wh, f'{unparse(o)[:50]} [codec]', okc,
+                          'the input file is decoded with '
+                          f'encoding={unparse(enc) if enc else "default"}'
+                          f', errors={unparse(err) if err else "strict"}: '
+                          'the characters inside string literals, quoted '
+                          'symbols and comments that reach the scanner '
+                          'are not the characters of the file (and what '
+                          'the writers emit with the default codec is '
+                          'another byte sequence)', loc=cm.loc(o),
+                          nontrivial=True)
     chk.floor('C08.R5', 'call sites of parse_smtlib', ncall, 2)
 
 
